@@ -12,11 +12,13 @@ Definition reorganise (orig : nat) (l : list item) : list item :=
   fst (fst (rloop orig 0 l (l, orig, 0))).
 
 (* ---- specification ---- *)
-Definition keepA (i : item) := is_import i && negb (deleted i).   (* first region: surviving imports *)
-Definition keepC (i : item) := is_local i && negb (deleted i).    (* later region: live locals *)
+Definition keepA (i : item) := is_import i && negb (deleted i).   (* surviving imports *)
+Definition keepC (i : item) := is_local i && negb (deleted i).    (* live locals *)
+(* live imports of the region of the original imports, live imports of the later region, live locals of the later
+   region, live locals of the region of the original imports (converted imports): no deleted item survives *)
 Definition spec (orig : nat) (l : list item) : list item :=
-  filter keepA (firstn orig l) ++ filter is_import (skipn orig l)
-  ++ filter keepC (skipn orig l) ++ filter is_local (firstn orig l).
+  filter keepA (firstn orig l) ++ filter keepA (skipn orig l)
+  ++ filter keepC (skipn orig l) ++ filter keepC (firstn orig l).
 
 (* ---- list lemmas ---- *)
 Lemma remove_at_app {A} (pre : list A) x post : remove_at (length pre) (pre ++ x :: post) = pre ++ post.
@@ -45,7 +47,7 @@ Lemma phase1 : forall todo done later D orig,
   length done + length todo <= orig ->
   loop orig (length done) todo
        (filter keepA done ++ todo ++ later ++ D, orig - rem1 done, rem1 done)
-  = (filter keepA (done ++ todo) ++ later ++ D ++ filter is_local todo,
+  = (filter keepA (done ++ todo) ++ later ++ D ++ filter keepC todo,
      orig - rem1 (done ++ todo), rem1 (done ++ todo)).
 Proof.
   induction todo as [|v todo IH]; intros done later D orig Hlen.
@@ -58,34 +60,40 @@ Proof.
     change ((v :: todo) ++ later ++ D) with (v :: (todo ++ later ++ D)).
     assert (Hdv : done ++ v :: todo = (done ++ [v]) ++ todo) by (rewrite <- app_assoc; reflexivity).
     assert (Hl1 : length (done ++ [v]) = S (length done)) by (rewrite app_length; cbn; lia).
-    destruct (is_local v) eqn:Hl.
-    + rewrite nth_error_app_len, remove_at_app.
-      assert (Hk : keepA v = false) by (unfold keepA, is_import; rewrite Hl; reflexivity).
+    destruct (deleted v) eqn:Hd.
+    + (* deleted, whatever its kind: removed *)
+      rewrite remove_at_app.
+      assert (Hk : keepA v = false) by (unfold keepA; rewrite Hd, andb_false_r; reflexivity).
+      assert (Hkc : keepC v = false) by (unfold keepC; rewrite Hd, andb_false_r; reflexivity).
       assert (Hfv : filter keepA (done ++ [v]) = filter keepA done)
         by (rewrite filter_app; cbn; rewrite Hk, app_nil_r; reflexivity).
-      specialize (IH (done ++ [v]) later (D ++ [v]) orig).
+      specialize (IH (done ++ [v]) later D orig).
       rewrite Hl1, Hfv in IH.
       assert (Hr : rem1 (done ++ [v]) = rem1 done + 1) by (unfold rem1; rewrite Hl1, Hfv; lia).
       rewrite Hr in IH.
       replace (orig - rem1 done - 1) with (orig - (rem1 done + 1)) by lia.
-      replace ((filter keepA done ++ todo ++ later ++ D) ++ [v])
-        with (filter keepA done ++ todo ++ later ++ D ++ [v]) by (rewrite <- !app_assoc; reflexivity).
       rewrite IH by (cbn in Hlen; lia).
-      rewrite Hdv. cbn [filter]. rewrite Hl. rewrite <- !app_assoc. reflexivity.
-    + assert (Hi : is_import v = true) by (unfold is_import; rewrite Hl; reflexivity).
-      destruct (deleted v) eqn:Hd.
-      * rewrite remove_at_app.
-        assert (Hk : keepA v = false) by (unfold keepA; rewrite Hd, andb_false_r; reflexivity).
+      rewrite Hdv. cbn [filter]. rewrite Hkc. reflexivity.
+    + destruct (is_local v) eqn:Hl.
+      * (* live local (a converted import): moved behind everything *)
+        rewrite nth_error_app_len, remove_at_app.
+        assert (Hk : keepA v = false) by (unfold keepA, is_import; rewrite Hl; reflexivity).
+        assert (Hkc : keepC v = true) by (unfold keepC; rewrite Hl, Hd; reflexivity).
         assert (Hfv : filter keepA (done ++ [v]) = filter keepA done)
           by (rewrite filter_app; cbn; rewrite Hk, app_nil_r; reflexivity).
-        specialize (IH (done ++ [v]) later D orig).
+        specialize (IH (done ++ [v]) later (D ++ [v]) orig).
         rewrite Hl1, Hfv in IH.
         assert (Hr : rem1 (done ++ [v]) = rem1 done + 1) by (unfold rem1; rewrite Hl1, Hfv; lia).
         rewrite Hr in IH.
         replace (orig - rem1 done - 1) with (orig - (rem1 done + 1)) by lia.
+        replace ((filter keepA done ++ todo ++ later ++ D) ++ [v])
+          with (filter keepA done ++ todo ++ later ++ D ++ [v]) by (rewrite <- !app_assoc; reflexivity).
         rewrite IH by (cbn in Hlen; lia).
-        rewrite Hdv. cbn [filter]. rewrite Hl. reflexivity.
-      * assert (Hk : keepA v = true) by (unfold keepA; rewrite Hi, Hd; reflexivity).
+        rewrite Hdv. cbn [filter]. rewrite Hkc. rewrite <- !app_assoc. reflexivity.
+      * (* live import: stays *)
+        assert (Hi : is_import v = true) by (unfold is_import; rewrite Hl; reflexivity).
+        assert (Hk : keepA v = true) by (unfold keepA; rewrite Hi, Hd; reflexivity).
+        assert (Hkc : keepC v = false) by (unfold keepC; rewrite Hl; reflexivity).
         assert (Hfv : filter keepA (done ++ [v]) = filter keepA done ++ [v])
           by (rewrite filter_app; cbn; rewrite Hk; reflexivity).
         specialize (IH (done ++ [v]) later D orig).
@@ -94,17 +102,17 @@ Proof.
           by (unfold rem1; rewrite Hl1, Hfv, app_length; change (length [v]) with 1; pose proof (filter_len_le keepA done); lia).
         rewrite Hr in IH. rewrite <- app_assoc in IH. cbn [app] in IH.
         rewrite IH by (cbn in Hlen; lia).
-        rewrite Hdv. cbn [filter]. rewrite Hl. reflexivity.
+        rewrite Hdv. cbn [filter]. rewrite Hkc. reflexivity.
 Qed.
 
-(* phase 2: indices >= orig.  live = A ++ imports(done) ++ livelocals(done) ++ todo ++ D *)
-Definition dl (done : list item) := length done - length (filter is_import done) - length (filter keepC done).
+(* phase 2: indices >= orig.  live = A ++ liveimports(done) ++ livelocals(done) ++ todo ++ D *)
+Definition dl (done : list item) := length done - length (filter keepA done) - length (filter keepC done).
 
 Lemma filter_split_len (l : list item) :
-  length (filter is_import l) + length (filter keepC l) <= length l.
+  length (filter keepA l) + length (filter keepC l) <= length l.
 Proof.
   induction l as [|a l IH]; cbn; [lia|].
-  unfold keepC, is_import in *. destruct (is_local a), (deleted a); cbn; lia.
+  unfold keepA, keepC, is_import in *. destruct (is_local a), (deleted a); cbn; lia.
 Qed.
 
 Lemma insert_at_mid {A} (pre mid post : list A) x :
@@ -114,10 +122,10 @@ Proof. apply (insert_at_app pre x (mid ++ post)). Qed.
 Lemma phase2 : forall todo done A D orig r1,
   length A + r1 = orig ->
   loop orig (orig + length done) todo
-       (A ++ filter is_import done ++ filter keepC done ++ todo ++ D,
-        length A + length (filter is_import done), r1 + dl done)
-  = (A ++ filter is_import (done ++ todo) ++ filter keepC (done ++ todo) ++ D,
-     length A + length (filter is_import (done ++ todo)), r1 + dl (done ++ todo)).
+       (A ++ filter keepA done ++ filter keepC done ++ todo ++ D,
+        length A + length (filter keepA done), r1 + dl done)
+  = (A ++ filter keepA (done ++ todo) ++ filter keepC (done ++ todo) ++ D,
+     length A + length (filter keepA (done ++ todo)), r1 + dl (done ++ todo)).
 Proof.
   induction todo as [|v todo IH]; intros done A D orig r1 HA.
   - cbn. rewrite !app_nil_r. reflexivity.
@@ -125,60 +133,65 @@ Proof.
     pose proof (filter_split_len done) as Hs.
     assert (Hge : orig + length done <? orig = false) by (apply Nat.ltb_ge; lia).
     assert (Hidx : orig + length done - (r1 + dl done)
-                   = length (A ++ filter is_import done ++ filter keepC done))
+                   = length (A ++ filter keepA done ++ filter keepC done))
       by (rewrite !app_length; unfold dl; lia).
     unfold step. rewrite Hge, Hidx.
     change ((v :: todo) ++ D) with (v :: (todo ++ D)).
     assert (Hdv : done ++ v :: todo = (done ++ [v]) ++ todo) by (rewrite <- app_assoc; reflexivity).
     assert (Hl1 : length (done ++ [v]) = S (length done)) by (rewrite app_length; cbn; lia).
-    replace (A ++ filter is_import done ++ filter keepC done ++ v :: todo ++ D)
-      with ((A ++ filter is_import done ++ filter keepC done) ++ v :: (todo ++ D))
+    replace (A ++ filter keepA done ++ filter keepC done ++ v :: todo ++ D)
+      with ((A ++ filter keepA done ++ filter keepC done) ++ v :: (todo ++ D))
       by (rewrite <- !app_assoc; reflexivity).
-    destruct (is_import v) eqn:Hi.
-    + (* import found among the locals: moved to position num_imported, deleted or not *)
-      rewrite nth_error_app_len, remove_at_app.
-      assert (Hk : keepC v = false) by (unfold keepC; unfold is_import in Hi; destruct (is_local v); [discriminate|reflexivity]).
-      assert (Hfi : filter is_import (done ++ [v]) = filter is_import done ++ [v])
-        by (rewrite filter_app; cbn; rewrite Hi; reflexivity).
+    destruct (deleted v) eqn:Hd.
+    + (* deleted, whatever its kind: removed *)
+      rewrite remove_at_app.
+      assert (Hka : keepA v = false) by (unfold keepA; rewrite Hd, andb_false_r; reflexivity).
+      assert (Hk : keepC v = false) by (unfold keepC; rewrite Hd, andb_false_r; reflexivity).
+      assert (Hfi : filter keepA (done ++ [v]) = filter keepA done)
+        by (rewrite filter_app; cbn; rewrite Hka, app_nil_r; reflexivity).
       assert (Hfc : filter keepC (done ++ [v]) = filter keepC done)
         by (rewrite filter_app; cbn; rewrite Hk, app_nil_r; reflexivity).
       specialize (IH (done ++ [v]) A D orig r1 HA).
       rewrite Hl1, Hfi, Hfc in IH.
-      assert (Hdl : dl (done ++ [v]) = dl done)
-        by (unfold dl; rewrite Hl1, Hfi, Hfc, app_length; change (length [v]) with 1; lia).
-      rewrite Hdl, app_length in IH. change (length [v]) with 1 in IH.
+      assert (Hdl : dl (done ++ [v]) = dl done + 1)
+        by (unfold dl; rewrite Hl1, Hfi, Hfc; lia).
+      rewrite Hdl in IH.
       replace (orig + S (length done)) with (S (orig + length done)) in IH by lia.
-      replace (length A + (length (filter is_import done) + 1))
-        with (length A + length (filter is_import done) + 1) in IH by lia.
-      replace ((A ++ filter is_import done ++ filter keepC done) ++ todo ++ D)
-        with ((A ++ filter is_import done) ++ filter keepC done ++ todo ++ D)
-        by (rewrite <- !app_assoc; reflexivity).
-      replace (length A + length (filter is_import done)) with (length (A ++ filter is_import done))
-        by (rewrite app_length; reflexivity).
-      rewrite insert_at_app.
-      rewrite app_length.
-      replace ((A ++ filter is_import done) ++ v :: filter keepC done ++ todo ++ D)
-        with (A ++ (filter is_import done ++ [v]) ++ filter keepC done ++ todo ++ D)
-        by (rewrite <- !app_assoc; reflexivity).
-      rewrite IH. rewrite Hdv. reflexivity.
-    + assert (Hloc : is_local v = true) by (unfold is_import in Hi; destruct (is_local v); [reflexivity|discriminate]).
-      assert (Hfi : filter is_import (done ++ [v]) = filter is_import done)
-        by (rewrite filter_app; cbn; rewrite Hi, app_nil_r; reflexivity).
-      destruct (deleted v) eqn:Hd.
-      * (* deleted local: removed *)
-        rewrite remove_at_app.
-        assert (Hk : keepC v = false) by (unfold keepC; rewrite Hd, andb_false_r; reflexivity).
+      replace (r1 + (dl done + 1)) with (r1 + dl done + 1) in IH by lia.
+      rewrite <- !app_assoc. rewrite IH. rewrite Hdv. reflexivity.
+    + destruct (is_import v) eqn:Hi.
+      * (* live import found among the locals: moved to position num_imported *)
+        rewrite nth_error_app_len, remove_at_app.
+        assert (Hka : keepA v = true) by (unfold keepA; rewrite Hi, Hd; reflexivity).
+        assert (Hk : keepC v = false) by (unfold keepC; unfold is_import in Hi; destruct (is_local v); [discriminate|reflexivity]).
+        assert (Hfi : filter keepA (done ++ [v]) = filter keepA done ++ [v])
+          by (rewrite filter_app; cbn; rewrite Hka; reflexivity).
         assert (Hfc : filter keepC (done ++ [v]) = filter keepC done)
           by (rewrite filter_app; cbn; rewrite Hk, app_nil_r; reflexivity).
         specialize (IH (done ++ [v]) A D orig r1 HA).
         rewrite Hl1, Hfi, Hfc in IH.
-        assert (Hdl : dl (done ++ [v]) = dl done + 1)
-          by (unfold dl; rewrite Hl1, Hfi, Hfc; lia).
-        rewrite Hdl in IH.
+        assert (Hdl : dl (done ++ [v]) = dl done)
+          by (unfold dl; rewrite Hl1, Hfi, Hfc, app_length; change (length [v]) with 1; lia).
+        rewrite Hdl, app_length in IH. change (length [v]) with 1 in IH.
         replace (orig + S (length done)) with (S (orig + length done)) in IH by lia.
-        replace (r1 + (dl done + 1)) with (r1 + dl done + 1) in IH by lia.
-        rewrite <- !app_assoc. rewrite IH. rewrite Hdv. reflexivity.
+        replace (length A + (length (filter keepA done) + 1))
+          with (length A + length (filter keepA done) + 1) in IH by lia.
+        replace ((A ++ filter keepA done ++ filter keepC done) ++ todo ++ D)
+          with ((A ++ filter keepA done) ++ filter keepC done ++ todo ++ D)
+          by (rewrite <- !app_assoc; reflexivity).
+        replace (length A + length (filter keepA done)) with (length (A ++ filter keepA done))
+          by (rewrite app_length; reflexivity).
+        rewrite insert_at_app.
+        rewrite app_length.
+        replace ((A ++ filter keepA done) ++ v :: filter keepC done ++ todo ++ D)
+          with (A ++ (filter keepA done ++ [v]) ++ filter keepC done ++ todo ++ D)
+          by (rewrite <- !app_assoc; reflexivity).
+        rewrite IH. rewrite Hdv. reflexivity.
       * (* live local: stays *)
+        assert (Hloc : is_local v = true) by (unfold is_import in Hi; destruct (is_local v); [reflexivity|discriminate]).
+        assert (Hka : keepA v = false) by (unfold keepA; rewrite Hi; reflexivity).
+        assert (Hfi : filter keepA (done ++ [v]) = filter keepA done)
+          by (rewrite filter_app; cbn; rewrite Hka, app_nil_r; reflexivity).
         assert (Hk : keepC v = true) by (unfold keepC; rewrite Hloc, Hd; reflexivity).
         assert (Hfc : filter keepC (done ++ [v]) = filter keepC done ++ [v])
           by (rewrite filter_app; cbn; rewrite Hk; reflexivity).
@@ -207,7 +220,7 @@ Proof.
   rewrite Nat.sub_0_r, app_nil_r in P1.
   rewrite P1 by lia. clear P1.
   (* phase 2 *)
-  pose proof (phase2 later [] (filter keepA first) (filter is_local first) orig (rem1 first)) as P2.
+  pose proof (phase2 later [] (filter keepA first) (filter keepC first) orig (rem1 first)) as P2.
   assert (D0 : dl (@nil item) = 0) by reflexivity.
   rewrite D0 in P2. cbn [filter app length] in P2. rewrite !Nat.add_0_r in P2.
   rewrite Hlf.
